@@ -231,6 +231,6 @@ fn check(ctx: &Ctx, c: &Case) -> CaseResult {
 fn run(ctx: &Ctx) {
     let strat = |valid: bool| (c06::case_strategy_with(valid), proptest::collection::vec(any::<u16>(), 0..12), proptest::collection::vec(any::<u16>(), 0..4))
         .prop_map(|(history, perm, extra)| Case { history, perm, extra });
-    ctx.run("layouts-mostly-valid", strat(true), ctx.cases(240, 15_000), |c: &Case| check(ctx, c));
-    ctx.run("layouts-with-rejections", strat(false), ctx.cases(80, 5_000), |c: &Case| check(ctx, c));
+    ctx.run("layouts-mostly-valid", strat(true), ctx.cases(240, 4_000), |c: &Case| check(ctx, c));
+    ctx.run("layouts-with-rejections", strat(false), ctx.cases(80, 1_500), |c: &Case| check(ctx, c));
 }
